@@ -8,7 +8,9 @@
 //!     fragments touch and then closes every open conditional and group one at a time, printing
 //!     again after each close (so values saved in open groups are observed too).
 //!     The single-source run(P;Q) is compared as well (it must equal the reference).
-//!  2. structural: serialise(deserialise(serialise(vm))) == serialise(vm) as canonical JSON values.
+//!  2. structural (recorded, not judged): serialise(deserialise(serialise(vm))) vs serialise(vm) as canonical
+//!     JSON values. The statement speaks about behaviour on further input, not about the representation, so a
+//!     difference is an outcome class and a counter; that the restored VM can be serialised again IS judged.
 
 use serde_json::{json, Value};
 use vcore::{Acc, Ctx, Level};
@@ -332,7 +334,12 @@ fn execute_case(c: &Case, acc: Option<&mut Acc>) -> Vec<Failure> {
                 match vcore::catch(|| canonical(vtex::to_json_value(&vm2))) {
                     Ok(v2) => {
                         if *v0 != v2 {
-                            fails.push(Failure { boundary: k, format: Some(fmt), expected: "ser(de(ser(vm))) == ser(vm) as canonical JSON".into(), observed: first_diff(v0, &v2, "vm".into()).unwrap_or_default(), note: "the restored VM serialises differently from the original".into() });
+                            // Not a failure: the statement is about behaviour on further input; a loader that
+                            // normalises the representation (renumbers names, drops a redundant saved entry,
+                            // forgets exhausted sources) keeps the property. Recorded so that a representation
+                            // difference the observer does not reach is visible in the evidence.
+                            local.count("restored_vm_serialises_differently");
+                            local.class(&format!("restored VM serialises differently ({fmt:?}): {}", vcore::clip(&first_diff(v0, &v2, "vm".into()).unwrap_or_default(), 160)));
                         }
                     }
                     Err(p) => fails.push(Failure { boundary: k, format: Some(fmt), expected: "the restored VM can be serialised".into(), observed: p.describe(), note: "panic serialising the restored VM".into() }),
@@ -577,7 +584,7 @@ fn main() {
     ctx.assume("what is serde(skip) by design is re-attached after loading exactly as vtex::checkpoint does: the in-memory file system (same Rc), a fresh scripted terminal with no lines, log sinks, the step budget, the working directory");
     ctx.assume("the reference behaviour is the same VM continuing without a checkpoint (run(P1); run(P2;Q)), which is the property's statement; the single-source run(P;Q) is compared too, and a difference caused by splitting the source alone (the last command of P1 scans past its line end, so input is not exhausted at that boundary in the single-source run) is counted in 'split_alone_changes_behaviour' and as an outcome class, never attributed to serialisation");
     ctx.assume("line 0 of every fragment program pre-defines the names that the observer reads with \\the (\\f \\g \\i \\hh \\n \\arr): \\the of an undefined name is a todo!() in texcraft (C09); the first checkpoint is after line 1");
-    ctx.assume("oracle 2 compares canonical JSON: the macro table referenced by index and the per-level lists of the save stack are hash-ordered in the subject and are compared as (multi)sets");
+    ctx.assume("oracle 2 is recorded, not judged (a behaviour-preserving loader may normalise the representation): differences appear as outcome classes and in the counter 'restored_vm_serialises_differently'; a panic while serialising the restored VM is judged. It compares canonical JSON: the macro table referenced by index and the per-level lists of the save stack are hash-ordered in the subject and are compared as (multi)sets");
     ctx.assume("hash order inside the subject cannot be seeded: a failing program is re-executed 5 times and reported if any execution fails");
     ctx.assume("X (outside): checkpoints with pending input; \\dump is not a built-in");
 
